@@ -2,7 +2,7 @@
 from vlib.tok import f64, s as S, lst
 from checks import regiongen as G
 ID = 'C05'
-THEOREMS = []
+THEOREMS = ['Nix.C05.pair_region', 'Nix.C05.pair_none_empty', 'Nix.C05.ge_index_first', 'Nix.C05.axisOf_strictMono', 'Nix.C05.index_spec', 'Nix.C05.pair_spec', 'Nix.C05.dimOffsetCount_spec', 'Nix.C05.mapExcept_ok', 'Nix.C05.tagRegion_cells', 'Nix.C05.tag_region_spec', 'Nix.C05.tag_region_inside_data', 'Nix.C05.tag_cell_oob_empty', 'Nix.C05.tag_unspecified_dims_full', 'Nix.C05.tag_feature_dispatch']
 RULE = ('random tags over arrays of rank 1-3 with every combination of descriptor kinds (sampled: decimal/binary intervals, offsets; range: '
         'ascending ticks, sometimes more or fewer ticks than data; set with/without labels; data-frame), positions on / one ulp beside / between / '
         'outside coordinates, extents present / absent / zero / negative / ending exactly on a coordinate, 0..rank+1 position entries, units absent / '
@@ -96,3 +96,6 @@ def signature(f):
 
 def minimal(f):
     return [f.case.lines[f.line_no]]
+
+LEVEL_TEXT = ('Lean 4 theorems for every rank, every combination of well-formed descriptors, every position/extent/unit vector: a successful retrieval returns, per specified dimension, exactly the indices whose coordinate lies in [p, p+e] / [p, p+e) (as converted to the dimension unit) or, only for a zero extent with no coordinate in the interval, the first index at or after p; the block lies inside the data; an OutOfBounds cell means an empty interval; unspecified dimensions are returned in full in Inclusive mode (Exclusive: known finding K2, with a kernel-checked witness). Independent of floating-point rounding (no law of + - * / is used). Model tied to getOffsetAndCount/taggedData/featureData by element-exact correspondence; a brute-force coordinate-level evaluator judges every answer of the library.')
+LEVEL_NOTE = ('Trusted: Lean kernel; IEEE order facts as hypotheses (C07); hand-written model lean/NixModel/Region.lean validated each run; C18 unit model; x*1.0 == x; descriptors that describe the data; HDF5 reads.')
